@@ -6,6 +6,7 @@ the driver runs against `/repo` on every check.
 -/
 import OdlModel.Model.Prox
 import OdlModel.Lemmas.Prox
+import OdlModel.Model.Functionals
 import Mathlib.Tactic.Positivity
 import Mathlib.Tactic.GCongr
 import Mathlib.Algebra.BigOperators.Group.Finset.Basic
@@ -595,6 +596,342 @@ theorem C07.projL1_threshold (r : K) (x : List K) (hr : 0 ≤ r)
   rw [List.map_id, ← sumK_eq_sum, ← sumK_eq_sum, h2] at hle
   exact hbig hle
 
+/-! ### the executed `Fn.prox` leaf by leaf -/
+
+/-- `ProximalL2Squared._call` as executed by `Fn.prox` (scalar or point-wise step): right length,
+and minimiser of `Σ w_i (λ(z_i − g_i)² + (z_i − x_i)²/(2σ_i))` with quadratic gap. -/
+theorem C07.l2sq_list_minimises (E : Env K) (lam : K) (g : Option (List K)) (w x z : List K)
+    (sig : Sig K) (hl : 0 ≤ lam) (hw : ∀ i < x.length, 0 ≤ w.getD i 0)
+    (hs : ∀ i < x.length, 0 < sig.at i) :
+    let p := Fn.prox E (.l2sq lam g) w sig x
+    p.length = x.length ∧
+    ∑ i ∈ range x.length, w.getD i 0 * (lam * (p.getD i 0 - gAt g i) ^ 2
+        + ((p.getD i 0 - x.getD i 0) ^ 2 + (z.getD i 0 - p.getD i 0) ^ 2) / (2 * sig.at i))
+      ≤ ∑ i ∈ range x.length, w.getD i 0 * (lam * (z.getD i 0 - gAt g i) ^ 2
+        + (z.getD i 0 - x.getD i 0) ^ 2 / (2 * sig.at i)) := by
+  intro p
+  have hlen : p.length = x.length := by
+    show (Fn.prox E (.l2sq lam g) w sig x).length = _
+    cases sig <;> simp [Fn.prox, idxMap_length]
+  have hpi : ∀ i < x.length, p.getD i 0 = l2sqCode lam (sig.at i) (x.getD i 0) (gAt g i) := by
+    intro i hi
+    show (Fn.prox E (.l2sq lam g) w sig x).getD i 0 = _
+    cases sig with
+    | sc s => simp only [Fn.prox]; rw [idxMap_getD _ _ _ _ hi]; rfl
+    | vec v =>
+      simp only [Fn.prox]; rw [idxMap_getD _ _ _ _ hi]
+      exact C07.l2sq_pointwise_eq lam _ _ _ hl (hs i hi)
+  refine ⟨hlen, ?_⟩
+  apply C07.separable_lift (range x.length) (fun i => w.getD i 0) (fun i => sig.at i)
+    (fun i => x.getD i 0) (fun i => p.getD i 0) (fun i => z.getD i 0)
+    (fun i t => lam * (t - gAt g i) ^ 2)
+  · intro i hi; exact hw i (mem_range.mp hi)
+  · intro i hi; exact hs i (mem_range.mp hi)
+  · intro i hi
+    have hi' := mem_range.mp hi
+    simp only [hpi i hi']
+    exact C07.l2sq_vi lam (sig.at i) (x.getD i 0) (gAt g i) (z.getD i 0) hl (hs i hi')
+
+/-- `ProximalConvexConjL2Squared._call` as executed by `Fn.prox`. -/
+theorem C07.ccl2sq_list_minimises (E : Env K) (lam : K) (g : Option (List K)) (w x z : List K)
+    (sig : Sig K) (hl : 0 < lam) (hw : ∀ i < x.length, 0 ≤ w.getD i 0)
+    (hs : ∀ i < x.length, 0 < sig.at i) :
+    let p := Fn.prox E (.ccl2sq lam g) w sig x
+    p.length = x.length ∧
+    ∑ i ∈ range x.length, w.getD i 0 * ((p.getD i 0 ^ 2 / (4 * lam) + gAt g i * p.getD i 0)
+        + ((p.getD i 0 - x.getD i 0) ^ 2 + (z.getD i 0 - p.getD i 0) ^ 2) / (2 * sig.at i))
+      ≤ ∑ i ∈ range x.length, w.getD i 0 * ((z.getD i 0 ^ 2 / (4 * lam) + gAt g i * z.getD i 0)
+        + (z.getD i 0 - x.getD i 0) ^ 2 / (2 * sig.at i)) := by
+  intro p
+  have hlen : p.length = x.length := by
+    show (Fn.prox E (.ccl2sq lam g) w sig x).length = _
+    cases sig <;> simp [Fn.prox, idxMap_length]
+  have hpi : ∀ i < x.length, p.getD i 0 = ccL2sqCode lam (sig.at i) (x.getD i 0) (gAt g i) := by
+    intro i hi
+    show (Fn.prox E (.ccl2sq lam g) w sig x).getD i 0 = _
+    cases sig with
+    | sc s => simp only [Fn.prox]; rw [idxMap_getD _ _ _ _ hi]; rfl
+    | vec v =>
+      simp only [Fn.prox]; rw [idxMap_getD _ _ _ _ hi]
+      exact C07.ccl2sq_pointwise_eq lam _ _ _ hl (hs i hi)
+  refine ⟨hlen, ?_⟩
+  apply C07.separable_lift (range x.length) (fun i => w.getD i 0) (fun i => sig.at i)
+    (fun i => x.getD i 0) (fun i => p.getD i 0) (fun i => z.getD i 0)
+    (fun i t => t ^ 2 / (4 * lam) + gAt g i * t)
+  · intro i hi; exact hw i (mem_range.mp hi)
+  · intro i hi; exact hs i (mem_range.mp hi)
+  · intro i hi
+    have hi' := mem_range.mp hi
+    simp only [hpi i hi']
+    exact C07.ccl2sq_vi lam (sig.at i) (x.getD i 0) (gAt g i) (z.getD i 0) hl (hs i hi')
+
+/-- `ProximalConvexConjL1._call` as executed by `Fn.prox` (`eps = 0`): every entry lies in
+`[-λ, λ]`, and against every `z` with `|z_i| ≤ λ` the result minimises
+`Σ w_i (g_i z_i + (z_i − x_i)²/(2σ_i))` with quadratic gap. -/
+theorem C07.ccl1_list_minimises (E : Env K) (lam : K) (g : Option (List K)) (w x z : List K)
+    (sig : Sig K) (hl : 0 < lam) (hw : ∀ i < x.length, 0 ≤ w.getD i 0)
+    (hs : ∀ i < x.length, 0 < sig.at i) (hz : ∀ i < x.length, |z.getD i 0| ≤ lam) :
+    let p := Fn.prox E (.ccl1 lam g) w sig x
+    p.length = x.length ∧ (∀ i < x.length, |p.getD i 0| ≤ lam) ∧
+    ∑ i ∈ range x.length, w.getD i 0 * (gAt g i * p.getD i 0
+        + ((p.getD i 0 - x.getD i 0) ^ 2 + (z.getD i 0 - p.getD i 0) ^ 2) / (2 * sig.at i))
+      ≤ ∑ i ∈ range x.length, w.getD i 0 * (gAt g i * z.getD i 0
+        + (z.getD i 0 - x.getD i 0) ^ 2 / (2 * sig.at i)) := by
+  intro p
+  have hp : p = idxMap x fun i xi => ccL1Code lam (sig.at i * gAt g i) xi := rfl
+  have hpi : ∀ i < x.length, p.getD i 0 = ccL1Code lam (sig.at i * gAt g i) (x.getD i 0) := by
+    intro i hi; rw [hp, idxMap_getD _ _ _ _ hi]
+  refine ⟨by rw [hp, idxMap_length], ?_, ?_⟩
+  · intro i hi
+    rw [hpi i hi]
+    exact (C07.ccl1_vi lam _ (x.getD i 0) (z.getD i 0) hl (hz i hi)).1
+  apply C07.separable_lift (range x.length) (fun i => w.getD i 0) (fun i => sig.at i)
+    (fun i => x.getD i 0) (fun i => p.getD i 0) (fun i => z.getD i 0)
+    (fun i t => gAt g i * t)
+  · intro i hi; exact hw i (mem_range.mp hi)
+  · intro i hi; exact hs i (mem_range.mp hi)
+  · intro i hi
+    have hi' := mem_range.mp hi
+    simp only [hpi i hi']
+    have := (C07.ccl1_vi lam (sig.at i * gAt g i) (x.getD i 0) (z.getD i 0) hl (hz i hi')).2
+    linarith [this]
+
+/-- `ProxOpBoxConstraint._call` as executed by `Fn.prox` (bounds given entry-wise, absent bounds
+allowed): the result is in the box and, against every `z` in the box, is the closest point in
+every positively weighted norm (projection inequality summed with the weights). -/
+theorem C07.box_list_projection (E : Env K) (lo hi : Option (List K)) (w x z : List K) (sig : Sig K)
+    (hw : ∀ i < x.length, 0 ≤ w.getD i 0)
+    (hlh : ∀ i < x.length, ∀ l u, lo.map (·.getD i 0) = some l → hi.map (·.getD i 0) = some u → l ≤ u)
+    (hzl : ∀ i < x.length, ∀ l, lo.map (·.getD i 0) = some l → l ≤ z.getD i 0)
+    (hzu : ∀ i < x.length, ∀ u, hi.map (·.getD i 0) = some u → z.getD i 0 ≤ u) :
+    let p := Fn.prox E (.box lo hi) w sig x
+    p.length = x.length ∧
+    (∀ i < x.length, (∀ l, lo.map (·.getD i 0) = some l → l ≤ p.getD i 0) ∧
+      (∀ u, hi.map (·.getD i 0) = some u → p.getD i 0 ≤ u)) ∧
+    ∑ i ∈ range x.length, w.getD i 0 * ((x.getD i 0 - p.getD i 0) * (z.getD i 0 - p.getD i 0)) ≤ 0 := by
+  intro p
+  have hp : p = idxMap x fun i xi =>
+      boxCode (lo.map (·.getD i 0)) (hi.map (·.getD i 0)) xi := rfl
+  have hpi : ∀ i < x.length, p.getD i 0
+      = boxCode (lo.map (·.getD i 0)) (hi.map (·.getD i 0)) (x.getD i 0) := by
+    intro i hi'; rw [hp, idxMap_getD _ _ _ _ hi']
+  refine ⟨by rw [hp, idxMap_length], ?_, ?_⟩
+  · intro i hi'
+    rw [hpi i hi']
+    have := C07.box_vi (lo.map (·.getD i 0)) (hi.map (·.getD i 0)) (x.getD i 0) (z.getD i 0)
+      (hlh i hi') (hzl i hi') (hzu i hi')
+    exact ⟨this.1, this.2.1⟩
+  · apply Finset.sum_nonpos
+    intro i hi'
+    have hi'' := mem_range.mp hi'
+    rw [hpi i hi'']
+    have := (C07.box_vi (lo.map (·.getD i 0)) (hi.map (·.getD i 0)) (x.getD i 0) (z.getD i 0)
+      (hlh i hi'') (hzl i hi'') (hzu i hi'')).2.2
+    exact mul_nonpos_of_nonneg_of_nonpos (hw i hi'') this
+
+
+/-- `ProximalHuber._call` on a tensor space as executed by `Fn.prox` (float step, `γ > 0`):
+minimiser of `Σ w_i (f_γ(z_i) + (z_i − x_i)²/(2σ))` with quadratic gap. -/
+theorem C07.huber_list_minimises (E : Env K) (gam s : K) (w x z : List K)
+    (hg : 0 < gam) (hs : 0 < s) (hw : ∀ i < x.length, 0 ≤ w.getD i 0) :
+    let p := Fn.prox E (.huber gam) w (.sc s) x
+    p.length = x.length ∧
+    ∑ i ∈ range x.length, w.getD i 0 * (huberFn gam (p.getD i 0)
+        + ((p.getD i 0 - x.getD i 0) ^ 2 + (z.getD i 0 - p.getD i 0) ^ 2) / (2 * s))
+      ≤ ∑ i ∈ range x.length, w.getD i 0 * (huberFn gam (z.getD i 0)
+        + (z.getD i 0 - x.getD i 0) ^ 2 / (2 * s)) := by
+  intro p
+  have hp : p = x.map (huberCode gam s) := rfl
+  refine ⟨by rw [hp, List.length_map], ?_⟩
+  apply C07.separable_lift (range x.length) (fun i => w.getD i 0) (fun _ => s)
+    (fun i => x.getD i 0) (fun i => p.getD i 0) (fun i => z.getD i 0)
+    (fun _ t => huberFn gam t)
+  · intro i hi; exact hw i (mem_range.mp hi)
+  · intro i _; exact hs
+  · intro i hi
+    have hi' := mem_range.mp hi
+    simp only [hp, map_getD' x _ i hi']
+    exact C07.huber_vi gam s (x.getD i 0) (z.getD i 0) hg hs
+
+/-- `IndicatorSimplex.proximal` (no array weights) as executed by `Fn.prox`, every input: for
+every non-empty `x` and diameter `r ≥ 0` the result is in the simplex (`p ≥ 0`, `Σp = r`) and
+satisfies the projection inequality against every `z` of the simplex. -/
+theorem C07.simplex_list_projection (E : Env K) (r : K) (w x z : List K) (sig : Sig K)
+    (hx : x ≠ []) (hr : 0 ≤ r) (hz0 : ∀ i < x.length, 0 ≤ z.getD i 0)
+    (hz : ∑ i ∈ range x.length, z.getD i 0 = r) :
+    let p := Fn.prox E (.simplex false r) w sig x
+    p.length = x.length ∧ (∀ i < x.length, 0 ≤ p.getD i 0) ∧
+    ∑ i ∈ range x.length, p.getD i 0 = r ∧
+    ∑ i ∈ range x.length, (x.getD i 0 - p.getD i 0) * (z.getD i 0 - p.getD i 0) ≤ 0 := by
+  intro p
+  obtain ⟨tau, htau, hsum⟩ := C07.simplex_threshold_feasible r x hx hr
+  have hp : p = x.map fun xi => maxK (xi - tau) 0 := by
+    show (projSimplex r x).getD x = _
+    simp [projSimplex, htau]
+  have hpi : ∀ i < x.length, p.getD i 0 = maxK (x.getD i 0 - tau) 0 := by
+    intro i hi; rw [hp, map_getD' x _ i hi]
+  have hfeas : ∑ i ∈ range x.length, maxK (x.getD i 0 - tau) 0 = r := by
+    rw [sum_range_getD x (fun v => maxK (v - tau) 0), ← sumK_eq_sum]; exact hsum
+  have key := C07.simplex_kkt_sufficient (range x.length) (fun i => x.getD i 0)
+    (fun i => z.getD i 0) tau r hfeas (fun i hi => hz0 i (mem_range.mp hi)) hz
+  refine ⟨by rw [hp, List.length_map], ?_, ?_, ?_⟩
+  · intro i hi; rw [hpi i hi]; exact key.1 i (mem_range.mpr hi)
+  · rw [Finset.sum_congr rfl (fun i hi => hpi i (mem_range.mp hi))]; exact hfeas
+  · rw [Finset.sum_congr rfl (fun i hi => by rw [hpi i (mem_range.mp hi)])]; exact key.2
+
+/-- `IndicatorSumConstraint.proximal` (no array weights) as executed by `Fn.prox`, every
+non-empty input: the result has the prescribed sum and satisfies the projection inequality
+against every `z` with that sum. -/
+theorem C07.sumc_list_projection (E : Env K) (sv : K) (w x z : List K) (sig : Sig K)
+    (hx : x ≠ []) (hz : ∑ i ∈ range x.length, z.getD i 0 = sv) :
+    let p := Fn.prox E (.sumc false sv) w sig x
+    p.length = x.length ∧ ∑ i ∈ range x.length, p.getD i 0 = sv ∧
+    ∑ i ∈ range x.length, (x.getD i 0 - p.getD i 0) * (z.getD i 0 - p.getD i 0) ≤ 0 := by
+  intro p
+  have hne : (range x.length).Nonempty := by
+    rw [Finset.nonempty_range_iff]; exact (List.length_pos_iff.mpr hx).ne'
+  have key := C07.sumc_vi (range x.length) hne (fun i => x.getD i 0) (fun i => z.getD i 0) sv hz
+  simp only [card_range] at key
+  have hoff : 1 / (x.foldl (fun acc _ => acc + 1) (0 : K)) * (sv - sumK x)
+      = 1 / (x.length : K) * (sv - ∑ i ∈ range x.length, x.getD i 0) := by
+    rw [foldl_count, zero_add, sumK_eq_sum]
+    congr 2
+    have := sum_range_getD x id
+    simpa using this.symm
+  have hp : p = x.map (· + 1 / (x.length : K) * (sv - ∑ i ∈ range x.length, x.getD i 0)) := by
+    show x.map (· + 1 / (x.foldl (fun acc _ => acc + 1) (0 : K)) * (sv - sumK x)) = _
+    rw [hoff]
+  have hpi : ∀ i < x.length, p.getD i 0
+      = x.getD i 0 + 1 / (x.length : K) * (sv - ∑ i ∈ range x.length, x.getD i 0) := by
+    intro i hi; rw [hp, map_getD' x _ i hi]
+  refine ⟨by rw [hp, List.length_map], ?_, ?_⟩
+  · rw [Finset.sum_congr rfl (fun i hi => hpi i (mem_range.mp hi))]; exact key.1
+  · rw [Finset.sum_congr rfl (fun i hi => by rw [hpi i (mem_range.mp hi)])]; exact key.2
+
+/-- Entry-wise description of the executed `projL1`: either the input itself (`Σ|x_i| ≤ r`) or
+the thresholded point with a feasible threshold `τ ≥ 0`. -/
+theorem C07.projL1_cases (r : K) (x : List K) (hr : 0 ≤ r) :
+    (∑ i ∈ range x.length, |x.getD i 0| ≤ r ∧ (projL1 r x).getD x = x) ∨
+    (∃ tau, 0 ≤ tau ∧ ∑ i ∈ range x.length, maxK (absK (x.getD i 0) - tau) 0 = r ∧
+      ((projL1 r x).getD x).length = x.length ∧
+      ∀ i < x.length, ((projL1 r x).getD x).getD i 0
+        = maxK (absK (x.getD i 0) - tau) 0 * signK (x.getD i 0)) := by
+  have hsumabs : sumK (x.map absK) = ∑ i ∈ range x.length, |x.getD i 0| := by
+    rw [sumK_eq_sum, ← sum_range_getD x absK]
+    exact Finset.sum_congr rfl (fun i _ => absK_eq _)
+  by_cases hsm : sumK (x.map absK) ≤ r
+  · left
+    exact ⟨by rw [← hsumabs]; exact hsm, by simp [projL1, hsm]⟩
+  · right
+    obtain ⟨tau, ht, htau, hsum⟩ := C07.projL1_threshold r x hr hsm
+    have hres : (projL1 r x).getD x = List.zipWith (fun pi xi => pi * signK xi)
+        ((x.map absK).map fun u => maxK (u - tau) 0) x := by
+      simp [projL1, hsm, projSimplex, htau]
+    refine ⟨tau, ht, ?_, ?_, ?_⟩
+    · rw [← hsum, sumK_eq_sum, List.map_map, ← sum_range_getD x]
+      rfl
+    · rw [hres]; simp
+    · intro i hi
+      rw [hres, zipWith_getD' _ _ _ i (by simpa using hi) hi, List.map_map, map_getD' x _ i hi]
+      rfl
+
+/-- `proximal_convex_conj_linfty` (`IndicatorLpUnitBall(·, 1).proximal`) as executed by
+`Fn.prox`, constant weight `cw > 0`, every input: the result lies in the l1-ball of radius
+`1/cw` (i.e. the weighted 1-norm is ≤ 1) and satisfies the projection inequality against every
+`z` of that ball. -/
+theorem C07.cclinf_list_projection (E : Env K) (cw : K) (w x z : List K) (sig : Sig K)
+    (hc : 0 < cw) (hz : ∑ i ∈ range x.length, |z.getD i 0| ≤ 1 / cw) :
+    let p := Fn.prox E (.cclinf cw) w sig x
+    p.length = x.length ∧ ∑ i ∈ range x.length, |p.getD i 0| ≤ 1 / cw ∧
+    ∑ i ∈ range x.length, (x.getD i 0 - p.getD i 0) * (z.getD i 0 - p.getD i 0) ≤ 0 := by
+  intro p
+  have hp : p = (projL1 (1 / cw) x).getD x := rfl
+  rcases C07.projL1_cases (1 / cw) x (by positivity) with ⟨h1, h2⟩ | ⟨tau, ht, hfe, hlen, hpi⟩
+  · rw [hp, h2]
+    exact ⟨rfl, h1, by simp⟩
+  · rw [← hp] at hlen hpi
+    have key := C07.l1ball_kkt_sufficient (range x.length) (fun i => x.getD i 0)
+      (fun i => z.getD i 0) tau (1 / cw) ht hfe hz
+    refine ⟨hlen, ?_, ?_⟩
+    · rw [Finset.sum_congr rfl (fun i hi => by rw [hpi i (mem_range.mp hi)])]
+      exact le_of_eq key.1
+    · rw [Finset.sum_congr rfl (fun i hi => by rw [hpi i (mem_range.mp hi)])]
+      exact key.2
+
+/-- `proximal_linfty` (`LpNorm(·, inf).proximal`) as executed by `Fn.prox`, constant weight
+`cw > 0`, step `σ ≥ 0`, every input: there is `T` bounding all `|p_i|` (the sup-norm of `p`; it
+is attained whenever the thresholding branch is taken with `σ > 0`) such that for every `z` and
+every bound `M ≥ |z_i|`: `ρ T + Σ (x_i − p_i)(z_i − p_i) ≤ ρ M` with `ρ = σ/cw` — the
+variational inequality of `prox_{σ‖·‖_∞}` in the inner product with constant weight `cw`. -/
+theorem C07.linf_list_vi (E : Env K) (cw s M : K) (w x z : List K)
+    (hc : 0 < cw) (hs : 0 ≤ s) (hM : 0 ≤ M) (hz : ∀ i < x.length, |z.getD i 0| ≤ M) :
+    let p := Fn.prox E (.linf cw) w (.sc s) x
+    p.length = x.length ∧ ∃ T, (∀ i < x.length, |p.getD i 0| ≤ T) ∧
+    s / cw * T + ∑ i ∈ range x.length, (x.getD i 0 - p.getD i 0) * (z.getD i 0 - p.getD i 0)
+      ≤ s / cw * M := by
+  intro p
+  have hp : p = List.zipWith (fun pi xi => -pi + xi) ((projL1 (s / cw) x).getD x) x := rfl
+  have hr : 0 ≤ s / cw := by positivity
+  rcases C07.projL1_cases (s / cw) x hr with ⟨h1, h2⟩ | ⟨tau, ht, hfe, hlen, hqi⟩
+  · have hpi : ∀ i < x.length, p.getD i 0 = -(x.getD i 0) + x.getD i 0 := by
+      intro i hi; rw [hp, h2, zipWith_getD' _ _ _ i hi hi]
+    refine ⟨by rw [hp, h2]; simp, 0, ?_, ?_⟩
+    · intro i hi; rw [hpi i hi]; simp
+    · have key := C07.linf_vi_small (range x.length) (fun i => x.getD i 0) (fun i => z.getD i 0)
+        (s / cw) M h1 hM (fun i hi => hz i (mem_range.mp hi))
+      rw [Finset.sum_congr rfl (fun i hi => by rw [hpi i (mem_range.mp hi)])]
+      exact key
+  · have hpi : ∀ i < x.length, p.getD i 0
+        = -(maxK (absK (x.getD i 0) - tau) 0 * signK (x.getD i 0)) + x.getD i 0 := by
+      intro i hi
+      rw [hp, zipWith_getD' _ _ _ i (by rw [hlen]; exact hi) hi, hqi i hi]
+    have key := C07.linf_vi (range x.length) (fun i => x.getD i 0) (fun i => z.getD i 0)
+      tau (s / cw) M ht hfe (fun i hi => hz i (mem_range.mp hi))
+    refine ⟨by rw [hp]; simp [hlen], tau, ?_, ?_⟩
+    · intro i hi; rw [hpi i hi]; exact key.1 i (mem_range.mpr hi)
+    · rw [Finset.sum_congr rfl (fun i hi => by rw [hpi i (mem_range.mp hi)])]
+      exact key.2.2
+
+/-- The Huber function of the theorems is the per-entry model of `Huber._call` that C08/C09 tie
+to the real code (`Functionals.huberVal1`), for `γ > 0`. -/
+theorem C07.huberFn_eq_huberVal1 (gam t : K) (hg : 0 < gam) :
+    huberFn gam t = OdlModel.Functionals.huberVal1 gam t := by
+  unfold huberFn OdlModel.Functionals.huberVal1 OdlModel.Functionals.two
+  have ha : OdlModel.Functionals.absK t = |t| := by
+    unfold OdlModel.Functionals.absK; split_ifs with h
+    · exact (abs_of_neg h).symm
+    · exact (abs_of_nonneg (not_lt.mp h)).symm
+  rw [if_pos hg, ha]
+  rcases lt_trichotomy |t| gam with h | h | h
+  · rw [if_pos (le_of_lt h), if_neg (not_le.mpr h)]
+    rw [← sq_abs t]; field_simp; ring
+  · rw [if_pos (le_of_eq h), if_pos (le_of_eq h.symm), ← sq_abs t, h]; field_simp; ring
+  · rw [if_neg (not_le.mpr h), if_pos (le_of_lt h)]; norm_num
+
+/-- `ProximalHuber._call` for `γ = 0` (documented: the L1 norm): the executed formula satisfies
+the variational inequality of `σ|·|`. -/
+theorem C07.huber_vi_gamma0 (sig x z : K) (hs : 0 < sig) :
+    sig * |huberCode 0 sig x| + (x - huberCode 0 sig x) * (z - huberCode 0 sig x) ≤ sig * |z| := by
+  unfold huberCode
+  simp only [absK_eq, zero_add, zero_div, zero_mul]
+  have hz1 := le_abs_self z
+  have hz2 := neg_abs_le z
+  split_ifs with h
+  · simp only [abs_zero, mul_zero, sub_zero, zero_add]
+    calc x * z ≤ |x * z| := le_abs_self _
+      _ = |x| * |z| := abs_mul _ _
+      _ ≤ sig * |z| := by gcongr
+  · have hx : sig < |x| := not_le.mp h
+    rcases le_or_gt 0 x with h0 | h0
+    · rw [abs_of_nonneg h0] at hx ⊢
+      have : x / x = 1 := div_self (by linarith)
+      rw [this, mul_one, abs_of_pos (by linarith)]; nlinarith
+    · rw [abs_of_neg h0] at hx ⊢
+      have : x / -x = -1 := by rw [div_neg, div_self (ne_of_lt h0)]
+      rw [this]
+      have e : x - sig * -1 = x + sig := by ring
+      rw [e, abs_of_neg (by linarith)]; nlinarith
+
 /-! Non-vacuity of the lifting theorems on concrete data. -/
 example : ∑ k ∈ Finset.range 3, maxK (uEx k
     - 1 / ((2 : ℕ) : ℚ) * (∑ k ∈ Finset.range 2, uEx k - 1)) 0 = 1 := by
@@ -1003,11 +1340,58 @@ theorem C07.prox_composition (C : Set F) (f : F → ℝ) (P : ℝ → F → F) (
   have e2 : (1 / mu) * (mu * σ * f (L z)) = σ * f (L z) := by field_simp
   linarith
 
-/-- Whole expression trees, any depth: if the leaves carry correct proximals and the side
+/-- `proximal_arg_scaling` with `scaling == 0` (the guard returning `proximal_const_func`): the
+identity is the proximal of the constant functional `z ↦ f(0·z)`, provided `0` is in the domain. -/
+theorem C07.prox_arg_scaling_zero (C : Set E) (f : E → ℝ) (P : ℝ → E → E) (σ : ℝ) (h0 : (0 : E) ∈ C) :
+    IsProx {z | (0 : ℝ) • z ∈ C} (fun z => f ((0 : ℝ) • z)) σ (proxArgScaling0 P 0 σ) := by
+  intro x
+  have : proxArgScaling0 P 0 σ x = x := by simp [proxArgScaling0]
+  rw [this]
+  refine ⟨by simpa using h0, fun z _ => ?_⟩
+  simp
+
+/-- Leaf contract on `E = ℝ`: the executed soft threshold is the proximal of `λ|· − g|`. -/
+theorem C07.l1_isProx_real (lam g σ : ℝ) (hl : 0 < lam) (hσ : 0 < σ) :
+    IsProx (Set.univ : Set ℝ) (fun z => lam * |z - g|) σ (fun x => softCode (σ * lam) x g) := by
+  intro x
+  refine ⟨trivial, fun z _ => ?_⟩
+  have := C07.soft_vi (σ * lam) x g z (mul_pos hσ hl)
+  have e : ∀ a b : ℝ, inner ℝ a b = b * a := by intro a b; simp
+  rw [e]
+  nlinarith [this]
+
+/-- Leaf contract on `E = ℝ`: the executed Huber proximal (`γ > 0`). -/
+theorem C07.huber_isProx_real (gam σ : ℝ) (hg : 0 < gam) (hσ : 0 < σ) :
+    IsProx (Set.univ : Set ℝ) (huberFn gam) σ (huberCode gam σ) := by
+  intro x
+  refine ⟨trivial, fun z _ => ?_⟩
+  have := C07.huber_vi gam σ x z hg hσ
+  have e : ∀ a b : ℝ, inner ℝ a b = b * a := by intro a b; simp
+  rw [e]
+  nlinarith [this]
+
+/-- Leaf contract on `E = ℝ`: the executed box projection (`lo ≤ hi`). -/
+theorem C07.box_isProx_real (lo hi σ : ℝ) (hlh : lo ≤ hi) :
+    IsProx (Set.Icc lo hi) (fun _ => 0) σ (boxCode (some lo) (some hi)) := by
+  intro x
+  have h := fun z (hz : z ∈ Set.Icc lo hi) =>
+    C07.box_vi (some lo) (some hi) x z (by intro l u hl hu; cases hl; cases hu; exact hlh)
+      (by intro l hl; cases hl; exact hz.1) (by intro u hu; cases hu; exact hz.2)
+  have hx := h lo ⟨le_refl _, hlh⟩
+  refine ⟨⟨hx.1 lo rfl, hx.2.1 hi rfl⟩, fun z hz => ?_⟩
+  have := (h z hz).2.2
+  have e : ∀ a b : ℝ, inner ℝ a b = b * a := by intro a b; simp
+  rw [e]
+  simp only [mul_zero, zero_add]
+  nlinarith [this]
+
+/-- CONDITIONAL on leaf contracts (`PTree.WF` assumes `IsProx` for every leaf; it is discharged
+in this file for the L2 norm / L2 ball on any inner product space and for L1, Huber and box
+leaves on `E = ℝ` only).  Whole expression trees, any depth: if the leaves carry correct proximals and the side
 conditions hold, the proximal that `functional.py` derives node by node (translation, right and
 left scalar multiplication, quadratic perturbation / Bregman distance, default convex
 conjugate) is the proximal of the denoted functional for every step `σ > 0`. -/
-theorem C07.tree_prox (rsqrt : ℝ → ℝ)
+theorem C07.tree_prox_of_leaf_hyps (rsqrt : ℝ → ℝ)
     (hr : ∀ t, 0 < t → 0 < rsqrt t ∧ rsqrt t * rsqrt t * t = 1) (t : PTree E) (hwf : t.WF) :
     ∀ σ, 0 < σ → IsProx t.dom t.val σ (t.prox rsqrt σ) := by
   induction t with
@@ -1017,6 +1401,8 @@ theorem C07.tree_prox (rsqrt : ℝ → ℝ)
     exact C07.prox_translation _ _ _ y σ (ih hwf σ hσ)
   | argScale t s ih =>
     intro σ hσ
+    show IsProx _ _ σ (proxArgScaling0 _ s σ)
+    rw [proxArgScaling0_of_ne _ s hwf.1]
     exact C07.prox_arg_scaling _ _ _ s σ hwf.1
       (ih hwf.2 _ (mul_pos hσ (mul_self_pos.mpr hwf.1)))
   | leftScale t c ih =>
@@ -1034,7 +1420,7 @@ theorem C07.tree_prox (rsqrt : ℝ → ℝ)
 /-- Non-vacuity: the depth-4 example tree, every step. -/
 example : ∀ σ, 0 < σ → IsProx exTree.dom exTree.val σ
     (exTree.prox (fun t => 1 / Real.sqrt t) σ) := by
-  apply C07.tree_prox
+  apply C07.tree_prox_of_leaf_hyps
   · intro t ht
     have hs := Real.sqrt_pos.mpr ht
     refine ⟨by positivity, ?_⟩
@@ -1042,6 +1428,28 @@ example : ∀ σ, 0 < σ → IsProx exTree.dom exTree.val σ
     field_simp; nlinarith
   · exact ⟨by norm_num, by norm_num, by norm_num,
       fun σ hσ => C07.l2_prox 2 σ 1 (by norm_num) hσ⟩
+
+/-- Non-vacuity with leaves other than L2: trees over the executed L1 and Huber proximals on
+`ℝ`, leaf contracts discharged by `C07.l1_isProx_real` / `C07.huber_isProx_real`. -/
+example : ∀ σ, 0 < σ → IsProx exTreeL1.dom exTreeL1.val σ
+    (exTreeL1.prox (fun t => 1 / Real.sqrt t) σ) := by
+  apply C07.tree_prox_of_leaf_hyps
+  · intro t ht
+    have hs := Real.sqrt_pos.mpr ht
+    refine ⟨by positivity, ?_⟩
+    have := Real.mul_self_sqrt (le_of_lt ht)
+    field_simp; nlinarith
+  · exact ⟨by norm_num, by norm_num, fun σ hσ => C07.l1_isProx_real 2 1 σ (by norm_num) hσ⟩
+
+example : ∀ σ, 0 < σ → IsProx exTreeHuber.dom exTreeHuber.val σ
+    (exTreeHuber.prox (fun t => 1 / Real.sqrt t) σ) := by
+  apply C07.tree_prox_of_leaf_hyps
+  · intro t ht
+    have hs := Real.sqrt_pos.mpr ht
+    refine ⟨by positivity, ?_⟩
+    have := Real.mul_self_sqrt (le_of_lt ht)
+    field_simp; nlinarith
+  · exact ⟨by norm_num, fun σ hσ => C07.huber_isProx_real (1 / 2) σ (by norm_num) hσ⟩
 
 end Comp
 
@@ -1097,6 +1505,42 @@ theorem C07.klcc_vi (lam sig g x z : ℝ) (hl : 0 < lam) (hs : 0 < sig) (hg : 0 
     rw [hxp]; field_simp; ring
   rw [e4]
   nlinarith
+
+open Finset in
+/-- `ProximalConvexConjKL._call` as executed by `Fn.prox` over ℝ with `np.sqrt = Real.sqrt`
+(float step, prior `g_i > 0` or absent = 1): entries `< λ` and minimiser of
+`Σ w_i (−λ g_i log(1 − z_i/λ) + (z_i − x_i)²/(2σ))` over `z < λ`, with quadratic gap. -/
+theorem C07.klcc_list_minimises (eps lam s : ℝ) (g : Option (List ℝ)) (w x z : List ℝ)
+    (hl : 0 < lam) (hs : 0 < s) (hw : ∀ i < x.length, 0 ≤ w.getD i 0)
+    (hg : ∀ i < x.length, 0 < priorAt g i)
+    (hz : ∀ i < x.length, z.getD i 0 < lam) :
+    let p := Fn.prox (⟨Real.sqrt, eps⟩ : Env ℝ) (.klcc lam g) w (.sc s) x
+    p.length = x.length ∧ (∀ i < x.length, p.getD i 0 < lam) ∧
+    ∑ i ∈ range x.length, w.getD i 0 *
+        (-(lam * priorAt g i) * Real.log (1 - p.getD i 0 / lam)
+        + ((p.getD i 0 - x.getD i 0) ^ 2 + (z.getD i 0 - p.getD i 0) ^ 2) / (2 * s))
+      ≤ ∑ i ∈ range x.length, w.getD i 0 *
+        (-(lam * priorAt g i) * Real.log (1 - z.getD i 0 / lam)
+        + (z.getD i 0 - x.getD i 0) ^ 2 / (2 * s)) := by
+  intro p
+  have hp : p = idxMap x fun i xi => klccCode Real.sqrt lam s xi (priorAt g i) := by
+    show Fn.prox _ _ _ _ _ = _
+    cases g <;> rfl
+  have hpi : ∀ i < x.length, p.getD i 0 = klccCode Real.sqrt lam s (x.getD i 0)
+      (priorAt g i) := by
+    intro i hi; rw [hp, idxMap_getD _ _ _ _ hi]
+  refine ⟨by rw [hp, idxMap_length], ?_, ?_⟩
+  · intro i hi; rw [hpi i hi]
+    exact (C07.klcc_vi lam s _ (x.getD i 0) (z.getD i 0) hl hs (hg i hi) (hz i hi)).1
+  apply C07.separable_lift (range x.length) (fun i => w.getD i 0) (fun _ => s)
+    (fun i => x.getD i 0) (fun i => p.getD i 0) (fun i => z.getD i 0)
+    (fun i t => -(lam * priorAt g i) * Real.log (1 - t / lam))
+  · intro i hi; exact hw i (mem_range.mp hi)
+  · intro i _; exact hs
+  · intro i hi
+    have hi' := mem_range.mp hi
+    simp only [hpi i hi']
+    exact (C07.klcc_vi lam s _ (x.getD i 0) (z.getD i 0) hl hs (hg i hi') (hz i hi')).2
 
 /-! ## open finding, reproduced on the model (which follows the code)
 
